@@ -261,15 +261,17 @@ func buildPools(U []UVal) []pool {
 			"9223372036854775807(uint64)", "9223372036854775808(uint64)", "9223372036854775809(uint64)", "18446744073709551615(uint64)",
 			"null(int64)", "null(uint64)", "null(time)", "0", "0(uint8)", "1970-01-01T00:00:00Z", "-1ns"}},
 		{"numbers", nums},
+		{"bigmix", []string{"9007199254740992", "9007199254740993", "9007199254740994", "9007199254740992.", "9007199254740994.",
+			"9007199254740993(uint64)", "-9007199254740993", "-9007199254740992.", "9223372036854775807", "9223372036854775808.",
+			"9223372036854775808(uint64)", "18446744073709551615(uint64)", "18446744073709551616.", "NaN", "+Inf", "-Inf", "null(float64)"}},
 		{"modelled", modelled},
 		{"universe", all},
 		{"strings", strs},
 	}
 }
 
-// genColumn picks d distinct values of a pool, dropping integers float64
-// cannot represent when the column also holds floats (known 2^53 finding,
-// reported by the triple oracle; the sort oracles need a preorder).
+// genColumn picks d distinct values of a pool (integers beyond 2^53 next to
+// floats included: the comparison is exact since c17972d59).
 func genColumn(rng *Rng, p pool, byText map[string]*UVal) []string {
 	d := 2 + rng.Intn(7)
 	if d > len(p.texts) {
@@ -281,16 +283,7 @@ func genColumn(rng *Rng, p pool, byText map[string]*UVal) []string {
 	}
 	Shuffle(rng, idx)
 	var out []string
-	hasFloat := false
 	for _, i := range idx[:d] {
-		if byText[p.texts[i]].IsFloat {
-			hasFloat = true
-		}
-	}
-	for _, i := range idx[:d] {
-		if hasFloat && byText[p.texts[i]].InexactIn {
-			continue
-		}
 		out = append(out, p.texts[i])
 	}
 	return out
@@ -308,23 +301,33 @@ func genSortCase(rng *Rng, zctx *zed.Context, pools []pool, byText map[string]*U
 	cols := make([][]string, nk)
 	for k := 0; k < nk; k++ {
 		var p pool
-		switch r := rng.Intn(10); {
+		byName := func(n string) pool {
+			for _, q := range pools {
+				if q.name == n {
+					return q
+				}
+			}
+			panic("no pool " + n)
+		}
+		switch r := rng.Intn(11); {
 		case k > 0 && r < 4:
-			p = pools[0]
+			p = byName("dup")
 		case r < 2:
-			p = pools[0]
+			p = byName("dup")
 		case r < 4:
-			p = pools[1]
+			p = byName("native")
 		case r < 5:
-			p = pools[2]
+			p = byName("sentinel")
 		case r < 6:
-			p = pools[3]
-		case r < 8:
-			p = pools[4]
+			p = byName("numbers")
+		case r < 7:
+			p = byName("bigmix")
 		case r < 9:
-			p = pools[5]
+			p = byName("modelled")
+		case r < 10:
+			p = byName("universe")
 		default:
-			p = pools[6]
+			p = byName("strings")
 		}
 		c.Keys = append(c.Keys, KeySpec{Name: keyNames[k], Desc: rng.Chance(2, 5), Pool: p.name})
 		cols[k] = genColumn(rng, p, byText)
@@ -551,7 +554,7 @@ func partsBC(o Opts, rng *Rng, res *Result, zctx *zed.Context, U []UVal, base ma
 	}
 	ncases, maxRows, modelBudget := 260, 36, 2600
 	if o.Tier == "thorough" {
-		ncases, maxRows, modelBudget = 6000, 120, 9000
+		ncases, maxRows, modelBudget = 4500, 120, 9000
 	}
 	var coqCases []string
 	modelRows := 0
